@@ -2,15 +2,16 @@
    map to OCaml natives; N, Z, positive, nat stay as extracted inductives. *)
 Require Import ExtrOcamlBasic.
 Require Import SQV.Model.Str SQV.Model.Escape SQV.Model.Token SQV.Generated.Alpha
-  SQV.Model.Literal SQV.Model.LitPos SQV.Spec.EngLex SQV.Spec.LitOracle SQV.Spec.EngTok
-  SQV.Model.Value SQV.Model.Expr SQV.Model.Cond SQV.Model.Stmt SQV.Model.Build SQV.Model.Writer
+  SQV.Model.Literal SQV.Model.LitPos SQV.Spec.EngLex SQV.Spec.LitOracle SQV.Spec.LitArrayOracle SQV.Spec.EngTok
+  SQV.Model.Value SQV.Model.Expr SQV.Model.Cond SQV.Model.Stmt SQV.Model.Build SQV.Model.Writer SQV.Model.LitValue
   SQV.Model.RenderExpr SQV.Model.RenderStmt SQV.Model.ExprTablesInst SQV.Model.Inject.
 Extraction Language OCaml.
 Set Extraction KeepSingleton.
 Extraction "model.ml"
   escape_string unescape_string dec_of_Z
   tokenize unquote text is_alpha_rust
-  lit_render lit_template decode_strings_at decode_bytes_at eng_lex_ident iden_prepare quote_char eng_tokens idents_of
+  lit_render lit_render_value lit_template decode_strings_at decode_bytes_at decode_string_array_at decode_bytes_array_at array_close
+  eng_lex_ident iden_prepare quote_char eng_tokens idents_of
   rquery rexpr emit_inline emit_params value_to_string tables_of build_select build_insert build_update build_delete
   build_cond build_onconflict into_condition api_between api_not_between api_like api_not_like api_is_in
   api_is_not_in api_in_tuples api_is_null api_is_not_null api_cast_as api_in_subquery api_exists
